@@ -167,8 +167,47 @@ def cat_selftest(lines):
     return {"skipped": "no suitable observation in this run"}
 
 
+# ---- C12, channel-restore clause (checkpoint -> bytes -> checkpoint -> channel.load)
+
+CKPT_OVERLAY = {"compose/zz_verif_ckpt_test.go": os.path.join(vlib.HARNESS, "compose/zz_verif_ckpt_test.go")}
+
+
+def ckpt_check(repo):
+    """returns (stats, bad[(id, line, reason)], lines): every channel state of spec/CkptGen.tla and the channels of a real interrupted DAG run
+    with a skipped branch, through a byte-only store and channel.load; judged by spec/CkptObs.tla"""
+    run = vlib.tlc("CkptGen", "CkptGen.cfg", workers=2, timeout=300, heap="2g")
+    vlib.tlc_must_pass(run, "CkptGen (restore path is the identity on the model)")
+    cases = [json.loads(c[0]) for c in run.tagged("CASE")]
+    cases.sort(key=lambda c: json.dumps(c, sort_keys=True))
+    d = vlib.mkscratch("verif-ckpt-")
+    cpath, opath = os.path.join(d, "cases.ndjson"), os.path.join(d, "obs.ndjson")
+    with open(cpath, "w") as fh:
+        for i, c in enumerate(cases):
+            fh.write(json.dumps({"id": "ch%d" % i, "ch": c["ch"]}) + "\n")
+    code, out, wall = vlib.go_test("compose", CKPT_OVERLAY, "^TestVerifCkpt$", env={"VERIF_CASES": cpath, "VERIF_OUT": opath}, timeout=600, repo=repo)
+    vlib.go_must_run(code, out, "checkpoint channel harness")
+    lines = vlib.read_lines(opath)
+    if len(lines) < len(cases) + 3:
+        raise Inconclusive("checkpoint harness wrote %d lines for %d cases + a real run" % (len(lines), len(cases)))
+    res = vlib.validate_traces("CkptObs", "CkptObs.cfg", lines, nproc=1, timeout=300, is_start=lambda s: s.startswith('{"ev":"ckpt"'), heap="2g")
+    _collect(res, "CkptObs")
+    # self-test: a restored channel with the skipped flag flipped must be rejected
+    o = json.loads(lines[0])
+    o["restored"]["skipped"] = not o["restored"]["skipped"]
+    st = vlib.validate_traces("CkptObs", "CkptObs.cfg", [lines[0], json.dumps(o)], nproc=1, timeout=120, is_start=lambda s: s.startswith('{"ev":"ckpt"'), heap="2g")
+    _collect(st, "CkptObs self-test")
+    if [b[1] for b in st["bad"]] != [2]:
+        raise Inconclusive("CkptObs self-test: corrupted line not rejected")
+    stats = {"channel_states": len(cases), "tlc_distinct": run.distinct, "tlc_generated": run.generated, "observations": len(lines),
+             "real_run_channels": len(lines) - len(cases), "trace_validation_states": res["states"], "wall_go_s": round(wall, 1)}
+    return stats, res["bad"], lines
+
+
 def ser_skeleton(a):
-    return [a["k"], a["nil"], len(a["t"]), [list(k.values()) for k in a["keys"]], [ser_skeleton(k) for k in a["kids"]]]
+    if a["k"] == "map":     # entries are unordered: the harness lists them sorted by key
+        ents = sorted(([k["kt"], k["kv"], k.get("ka", ""), k.get("kb", "")], ser_skeleton(v)) for k, v in zip(a["keys"], a["kids"]))
+        return [a["k"], a["nil"], len(a["t"]), ents]
+    return [a["k"], a["nil"], len(a["t"]), [ser_skeleton(k) for k in a["kids"]]]
 
 
 def ser_sigs(reason):
@@ -186,13 +225,13 @@ def c12(tier, repo=None):
     gens = []
     if tier == "quick":
         plan = [("SerGen_q.cfg", {"MaxDepth": 2, "MaxPtr": 2, "Bases": ["int", "named", "unreg"], "ErrDepth": 1, "Fx": "asis",
-                                  "KeyKinds": ["string", "int", "bool", "named", "any"]}, 400)]
+                                  "KeyKinds": ["string", "int", "bool", "named", "any", "skey", "okey"]}, 400)]
         variants, limit = 2, None
     else:
         plan = [("SerGen_t2.cfg", {"MaxDepth": 2, "MaxPtr": 2, "Bases": ["int", "string", "named", "unreg"], "ErrDepth": 1, "Fx": "asis",
-                                   "KeyKinds": ["string", "int", "bool", "named", "any"]}, 900),
+                                   "KeyKinds": ["string", "int", "bool", "named", "any", "skey", "okey"]}, 900),
                 ("SerGen_t3.cfg", {"MaxDepth": 3, "MaxPtr": 1, "Bases": ["int"], "ErrDepth": 0, "Fx": "asis",
-                                   "KeyKinds": ["string", "any"]}, 1500),
+                                   "KeyKinds": ["string", "any", "okey"]}, 1500),
                 ("SerGen_t3p.cfg", {"MaxDepth": 3, "MaxPtr": 2, "Bases": ["int"], "ErrDepth": 0, "Fx": "asis",
                                     "KeyKinds": ["string"]}, 1500)]
         variants, limit = 2, 400000
@@ -237,6 +276,15 @@ def c12(tier, repo=None):
     log("  SerObs: %d lines validated (%d TLC states); transcription agreement %s" % (len(lines), res["states"], res["stat"]))
     bad = [(b[0], b[2]) for b in res["bad"]]
     verdict = vlib.Verdict("C12")
+    ck_stats, ck_bad, ck_lines = ckpt_check(repo)
+    log("  channel restore through a byte store: %d channel states + %d channels of a real interrupted DAG run, %d rejected" % (
+        ck_stats["channel_states"], ck_stats["real_run_channels"], len(ck_bad)))
+    if ck_bad:
+        _, ck_bad2, ck_lines2 = ckpt_check(repo)          # reproduce
+        again = {(b[0], b[2]) for b in ck_bad2}
+        ck_obs = {json.loads(ln)["id"]: json.loads(ln) for ln in ck_lines}
+        for cid, _, reason in [b for b in ck_bad if (b[0], b[2]) in again][:40]:
+            verdict.violation(reason.replace(":", "/"), {"case": {"id": cid, "kind": "ckpt"}, "observation": ck_obs[cid]}, reason)
     confirmed = 0
     rerun = _sample_per_reason(bad)
     if bad:
@@ -262,8 +310,10 @@ def c12(tier, repo=None):
         if o["enc"] == "ok":
             nontriv.add(json.dumps([ser_skeleton(o["in"]), o["in"]["t"], o["dec"]]))
     some = vlib.sample(sorted(obs.keys()), 3)
-    cov = {"states": states, "transitions": trans, "traces_validated_against_impl": len(lines), "evaluations": len(lines),
-           "distinct_nontrivial": len(nontriv),
+    states += ck_stats["tlc_distinct"]
+    trans += ck_stats["tlc_generated"]
+    cov = {"states": states, "transitions": trans, "traces_validated_against_impl": len(lines) + len(ck_lines), "evaluations": len(lines) + len(ck_lines),
+           "distinct_nontrivial": len(nontriv), "channel_restore": dict(ck_stats, rejected=len(ck_bad)),
            "rule": "shapes = every value TLC reaches in spec/SerGen.tla by wrapping (ptr / nil ptr / slice / array / map per key kind / struct field / "
                    "interface position) inside the bounds listed under generators; each is materialised by reflection with seeded leaf values from a "
                    "per-kind boundary palette and seeded numeric kind for the token int, round-tripped through the real Marshal/Unmarshal, and the "
